@@ -17,6 +17,9 @@ var alg = &Algorithm{
 }
 
 // New returns RSAES OAEP key encryption algorithm.
+//
+// New doesn't accept weak keys less than 2048 bit.
+// If you want to use weak keys, use NewWeak instead.
 func New() keymanage.Algorithm {
 	return alg
 }
@@ -26,8 +29,35 @@ var alg256 = &Algorithm{
 }
 
 // New256 returns RSAES OAEP using SHA-256 key encryption algorithm.
+//
+// New256 doesn't accept weak keys less than 2048 bit.
+// If you want to use weak keys, use New256Weak instead.
 func New256() keymanage.Algorithm {
 	return alg256
+}
+
+var algw = &Algorithm{
+	hash: crypto.SHA1,
+	weak: true,
+}
+
+// NewWeak is same as New, but it accepts the weak keys.
+//
+// Deprecated: Use New instead.
+func NewWeak() keymanage.Algorithm {
+	return algw
+}
+
+var alg256w = &Algorithm{
+	hash: crypto.SHA256,
+	weak: true,
+}
+
+// New256Weak is same as New256, but it accepts the weak keys.
+//
+// Deprecated: Use New256 instead.
+func New256Weak() keymanage.Algorithm {
+	return alg256w
 }
 
 func init() {
@@ -37,8 +67,14 @@ func init() {
 
 var _ keymanage.Algorithm = (*Algorithm)(nil)
 
+// Algorithm is RSAES OAEP.
+//
+// By default, using weak keys less 2048 bits fails.
+// If you want to use weak keys, use NewWeak and New256Weak instead of
+// New and New256.
 type Algorithm struct {
 	hash crypto.Hash
+	weak bool
 }
 
 func (alg *Algorithm) NewKeyWrapper(key keymanage.Key) keymanage.KeyWrapper {
@@ -51,6 +87,17 @@ func (alg *Algorithm) NewKeyWrapper(key keymanage.Key) keymanage.KeyWrapper {
 	pub, ok := publicKey.(*rsa.PublicKey)
 	if !ok {
 		return keymanage.NewInvalidKeyWrapper(fmt.Errorf("rsaoaep: invalid public key type: %T", publicKey))
+	}
+
+	// RFC 7518 Section 4.3: A key of size 2048 bits or larger MUST be used.
+	if !alg.weak {
+		n := pub.N
+		if priv != nil {
+			n = priv.N
+		}
+		if size := n.BitLen(); size < 2048 {
+			return keymanage.NewInvalidKeyWrapper(fmt.Errorf("rsaoaep: weak key bit length: %d", size))
+		}
 	}
 
 	if priv != nil {
